@@ -20,10 +20,15 @@ type scenario struct {
 	L        int
 	N        int
 	Capacity int
+	Peek     bool // readers look at IsEmpty()/GetSize() before every RemoveHead (a polling reader)
 }
 
 func (s scenario) String() string {
-	return fmt.Sprintf("%s(n=%d) stream=%d capacity=%d", s.Fn, s.N, s.L, s.Capacity)
+	peek := ""
+	if s.Peek {
+		peek = " (readers poll IsEmpty/GetSize)"
+	}
+	return fmt.Sprintf("%s(n=%d) stream=%d capacity=%d%s", s.Fn, s.N, s.L, s.Capacity, peek)
 }
 
 func scenarios(tier string) []scenario {
@@ -42,6 +47,12 @@ func scenarios(tier string) []scenario {
 					s := scenario{Fn: fn, L: l, N: n, Capacity: c}
 					s.Name = fmt.Sprintf("%s-n%d-c%d-L%d", fn, n, c, l)
 					out = append(out, s)
+					if n == 2 && l >= 1 && ((l == 1 && c == 1) || (l <= 2 && tier == "thorough")) {
+						p := s
+						p.Peek = true
+						p.Name += "-peeking-readers"
+						out = append(out, p)
+					}
 				}
 			}
 		}
@@ -98,6 +109,10 @@ func (s scenario) program() rt.Program {
 					q = outputs[j]
 				}
 				for {
+					if s.Peek {
+						q.IsEmpty()
+						q.GetSize()
+					}
 					v, ok := q.RemoveHead()
 					if !ok {
 						break
